@@ -59,6 +59,8 @@ type Solver struct {
 	FallbackOK int
 	SolverSec float64
 	NoFallback bool
+	FastMs    int
+	primaryLogic string
 }
 
 func startProc(kind, logic string, ctx *TermCtx, timeoutMs int) (*proc, error) {
@@ -101,11 +103,32 @@ func startProc(kind, logic string, ctx *TermCtx, timeoutMs int) (*proc, error) {
 }
 
 func NewSolver(kind string, ctx *TermCtx, timeoutMs int) (*Solver, error) {
+	bvPrimary := false
+	if strings.HasSuffix(kind, "+bv") {
+		// bit-heavy harnesses: incremental QF_BV bit-blasting as the primary (slow per query on
+		// thousands of tiny queries, much better on hard bit-level ones)
+		bvPrimary = true
+		kind = strings.TrimSuffix(kind, "+bv")
+	}
 	if kind == "" {
 		kind = "z3-new"
 	}
-	s := &Solver{kind: kind, ctx: ctx, tmoMs: timeoutMs}
-	p, err := startProc(kind, "QF_BV", ctx, timeoutMs)
+	if bvPrimary {
+		s := &Solver{kind: kind, ctx: ctx, tmoMs: timeoutMs, FastMs: timeoutMs, primaryLogic: "QF_BV"}
+		p, err := startProc(kind, "QF_BV", ctx, timeoutMs)
+		if err != nil {
+			return nil, err
+		}
+		s.bv = p
+		return s, nil
+	}
+	s := &Solver{kind: kind, ctx: ctx, tmoMs: timeoutMs, FastMs: 3000}
+	if s.FastMs > timeoutMs {
+		s.FastMs = timeoutMs
+	}
+	// Primary: incremental general core (fast on the many small push/pop queries).  Hard
+	// bit-level queries time out there quickly and go to a one-shot QF_BV bit-blasting run.
+	p, err := startProc(kind, "", ctx, s.FastMs)
 	if err != nil {
 		return nil, err
 	}
@@ -261,7 +284,7 @@ func (s *proc) check(pc []*Term, extra *Term, wantModel bool) (Result, map[strin
 	res, bad := parseResult(lines)
 	var model map[string]uint64
 	if res == Sat && wantModel {
-		model = s.getModel()
+		model = s.getModel(varsOf(append(append([]*Term(nil), pc...), extra)))
 	}
 	if extra != nil {
 		s.send("(pop 1)\n")
@@ -281,7 +304,7 @@ func (s *Solver) Check(pc []*Term, extra *Term, wantModel bool) (Result, map[str
 	if s.bv != nil && s.bv.dead {
 		s.bv.cmd.Wait()
 		s.Restarts++
-		s.bv, _ = startProc(s.kind, "QF_BV", s.ctx, s.tmoMs)
+		s.bv, _ = startProc(s.kind, s.primaryLogic, s.ctx, s.FastMs)
 	}
 	if s.gen != nil && s.gen.dead {
 		s.gen.cmd.Wait()
@@ -293,19 +316,17 @@ func (s *Solver) Check(pc []*Term, extra *Term, wantModel bool) (Result, map[str
 		s.NUnknown++
 		return Unknown, nil
 	}
-	if nonbv {
-		if s.gen == nil {
-			g, err := startProc(s.kind, "", s.ctx, s.tmoMs)
-			if err != nil {
-				s.NUnknown++
-				return Unknown, nil
-			}
-			s.gen = g
-		}
-		p = s.gen
-	}
 	t0 := time.Now()
 	res, model, bad := p.check(pc, extra, wantModel)
+	if p.dead {
+		// the process was killed by the watchdog (or died): restart and retry once
+		p.cmd.Wait()
+		s.Restarts++
+		if np, err := startProc(s.kind, s.primaryLogic, s.ctx, s.FastMs); err == nil {
+			s.bv = np
+			res, model, bad = np.check(pc, extra, wantModel)
+		}
+	}
 	if bad {
 		s.Errors++
 	}
@@ -314,6 +335,12 @@ func (s *Solver) Check(pc []*Term, extra *Term, wantModel bool) (Result, map[str
 		if r2, m2 := s.fallback(pc, extra, wantModel, nonbv); r2 != Unknown {
 			s.FallbackOK++
 			res, model = r2, m2
+		}
+	}
+	if res == Unknown {
+		if d := os.Getenv("GOSYM_DUMP_UNKNOWN"); d != "" {
+			sc, _ := s.Standalone(pc, extra, "")
+			os.WriteFile(fmt.Sprintf("%s/unknown_%d_%d.smt2", d, os.Getpid(), s.Queries), []byte(sc), 0o644)
 		}
 	}
 	s.SolverSec += time.Since(t0).Seconds()
@@ -377,11 +404,9 @@ func (s *Solver) fallback(pc []*Term, extra *Term, wantModel, nonbv bool) (Resul
 		tsec = 1
 	}
 	alts := []alt{
+		{"z3-new", []string{"-in", fmt.Sprintf("-T:%d", tsec)}},
 		{"z3", []string{"-in", fmt.Sprintf("-T:%d", tsec)}},
 		{"cvc5", []string{"--produce-models", fmt.Sprintf("--tlimit=%d", s.tmoMs)}},
-	}
-	if s.kind == "z3" {
-		alts[0] = alt{"z3-new", []string{"-in", fmt.Sprintf("-T:%d", tsec)}}
 	}
 	for _, a := range alts {
 		sc := script
@@ -401,8 +426,8 @@ func (s *Solver) fallback(pc []*Term, extra *Term, wantModel, nonbv bool) (Resul
 			lines[k] = strings.TrimSpace(lines[k])
 		}
 		head := lines
-		if len(head) > 2 {
-			head = head[:2]
+		if len(head) > 1 {
+			head = head[:1] // first line is the check-sat answer; a get-value after unsat prints an error
 		}
 		res, bad := parseResult(head)
 		if bad || res == Unknown {
@@ -418,46 +443,83 @@ func (s *Solver) fallback(pc []*Term, extra *Term, wantModel, nonbv bool) (Resul
 
 func parseModel(txt string, vars []*Term) map[string]uint64 {
 	model := map[string]uint64{}
+	want := map[string]string{}
 	for _, v := range vars {
-		key := smtVarName(v.Name)
-		i := strings.Index(txt, "("+key+" ")
-		if i < 0 {
-			continue
-		}
-		rest := txt[i+len(key)+2:]
-		j := strings.IndexByte(rest, ')')
+		want[smtVarName(v.Name)] = v.Name
+	}
+	// entries look like (|name| #x..) / (|name| #b..) / (|name| true) / (|name| (_ bv5 8))
+	i := 0
+	for i < len(txt) {
+		j := strings.Index(txt[i:], "(|")
 		if j < 0 {
+			break
+		}
+		i += j + 1
+		k := strings.Index(txt[i+1:], "|")
+		if k < 0 {
+			break
+		}
+		key := txt[i : i+k+2]
+		i += k + 2
+		name, ok := want[key]
+		if !ok {
 			continue
 		}
-		tok := strings.TrimSpace(rest[:j])
+		rest := strings.TrimLeft(txt[i:], " ")
+		e := strings.IndexByte(rest, ')')
+		if e < 0 {
+			break
+		}
+		tok := strings.TrimSpace(rest[:e])
 		switch {
 		case tok == "true":
-			model[v.Name] = 1
+			model[name] = 1
 		case tok == "false":
-			model[v.Name] = 0
+			model[name] = 0
 		case strings.HasPrefix(tok, "#x"):
 			u, _ := strconv.ParseUint(tok[2:], 16, 64)
-			model[v.Name] = u
+			model[name] = u
 		case strings.HasPrefix(tok, "#b"):
 			u, _ := strconv.ParseUint(tok[2:], 2, 64)
-			model[v.Name] = u
+			model[name] = u
 		case strings.HasPrefix(tok, "(_ bv"):
 			f := strings.Fields(tok[5:])
 			u, _ := strconv.ParseUint(f[0], 10, 64)
-			model[v.Name] = u
+			model[name] = u
 		}
 	}
 	return model
 }
 
-func (s *proc) getModel() map[string]uint64 {
-	var names []string
-	var vars []*Term
-	for _, v := range s.ctx.vars {
-		if s.defined[v.ID] {
-			names = append(names, smtVarName(v.Name))
-			vars = append(vars, v)
+// varsOf collects the variables occurring in the given terms.
+func varsOf(ts []*Term) []*Term {
+	seen := map[int]bool{}
+	var out []*Term
+	var st []*Term
+	for _, t := range ts {
+		if t != nil {
+			st = append(st, t)
 		}
+	}
+	for len(st) > 0 {
+		t := st[len(st)-1]
+		st = st[:len(st)-1]
+		if seen[t.ID] {
+			continue
+		}
+		seen[t.ID] = true
+		if t.Op == OpVar {
+			out = append(out, t)
+		}
+		st = append(st, t.Args...)
+	}
+	return out
+}
+
+func (s *proc) getModel(vars []*Term) map[string]uint64 {
+	var names []string
+	for _, v := range vars {
+		names = append(names, smtVarName(v.Name))
 	}
 	if len(names) == 0 {
 		return map[string]uint64{}
